@@ -68,6 +68,15 @@ def gen_script(rng, t, nops=None, faults=False, misuse=False):
             al = rng.choice([1, al_for(size)])
         else:
             al = rng.choice([1, al_for(t['lns'])])
+        if t['kind'] == 'coll' and rng.random() < 0.03:
+            # moves in the middle of a history: the collection goes on from where it was
+            lines.append(rng.choice(['mv', 'ma fresh', 'ma used']))
+            continue
+        if t['kind'] == 'coll' and rng.random() < 0.04:
+            # memory_pool_collection::reserve(node_size, capacity): whole nodes of the bucket, well inside a block
+            b = max(size, 1 if t['pt'] == 'small' else 8); b = 1 << (b - 1).bit_length()
+            lines.append('rs %d %d' % (size, b * rng.choice([1, 2, 3, 5, 8]) + (32 if t['pt'] == 'small' else 0)))
+            continue
         if r < 0.38:
             lines.append('%s %d %d' % (rng.choice(['an', 'an', 'an', 'tn']), size, al))
         elif r < 0.50 and arrays_ok:
@@ -114,6 +123,10 @@ def gen_script(rng, t, nops=None, faults=False, misuse=False):
             cnt = rng.choice([2, 3, 4, 6])
             op = rng.choice(['aa', 'ta'])
             lines += ['q %d' % es, '%s %d %d 1' % (op, cnt, es), 'd 0%s' % (' t' if op == 'ta' else ''), 'q %d' % es]
+    if arrays_ok and t['kind'] == 'coll':
+        # exactly one node left on a list: an array of one element is a single-node request and must come from the list
+        es = rng.choice(sizes)
+        lines += ['drain %d' % es, 'd 0', 'q %d' % es, 'aa 1 %d 1' % es, 'dall fwd']
     lines.append('q %d' % sizes[0])
     # one more allocate/release cycle after everything was released: must not grow
     lines.append('an %d 1' % sizes[0])
